@@ -310,10 +310,14 @@ class KeyqueueTrie:
                 raise MoreInputRequired()
             return None
 
+        fields = value[:-1].split(";")
+        if not all(field.isascii() and field.isdigit() for field in fields):
+            # int() would also take signs, blanks and underscores: not a known sequence
+            return None
         try:
-            (b, x, y) = (int(val) for val in value[:-1].split(";"))
+            (b, x, y) = (int(val) for val in fields)
         except ValueError:
-            # malformed report (wrong number of fields or a non-numeric field): not a known sequence
+            # malformed report (wrong number of fields): not a known sequence
             return None
         action = value[-1]
         # Double and triple clicks are not supported.
